@@ -201,4 +201,25 @@ theorem addressee_unique (ids : List Node) (h : ids.Nodup) (to : Nat) (hto : to 
 /-- Non-vacuity: IDs differing only in case are different nodes -/
 example : addressees [[104, 117, 98], [72, 85, 66], [72, 117, 98]] [72, 85, 66] = [1] := by decide
 
+/-- **stream_link_roundtrip.** A stream backend (TCP, WebSocket): every datagram is encoded, framed with its length and
+written to the byte stream; the receiver reads the stream in chunks of any sizes, at any moments, deframes and decodes.
+What it obtains is exactly the datagrams that were sent, in order — names, services, hop count and payload. -/
+theorem stream_link_roundtrip (h : Bytes → Nat) (tbl : Nat → Option Bytes) (ms : List Msg)
+    (hh : ∀ n, h n < 18446744073709551616)
+    (hwf : ∀ m ∈ ms, tbl (h m.fromNode) = some m.fromNode ∧ tbl (h m.toNode) = some m.toNode ∧ svcOK m.fromSvc ∧ svcOK m.toSvc ∧ m.ttl < 256)
+    (hlen : ∀ m ∈ ms, (encode h m).length < 65536)
+    (ops : List Op) (hc : chunksOf ops = ((ms.map (encode h)).map frame).flatten) :
+    ((runOps [] ops).1 ++ (drain (runOps [] ops).2).1).map (decode stdLayout tbl) = ms.map Except.ok := by
+  have hm : ∀ b ∈ ms.map (encode h), b.length < 65536 := by
+    intro b hb
+    obtain ⟨m, hm, rfl⟩ := List.mem_map.mp hb
+    exact hlen m hm
+  obtain ⟨h1, _⟩ := deframe_any_schedule (ms.map (encode h)) hm ops hc
+  rw [h1, List.map_map]
+  apply List.map_congr_left
+  intro m hmem
+  obtain ⟨a, b, c, d, e⟩ := hwf m hmem
+  exact decode_encode h tbl m hh a b c d e
+
+
 end Receptor.C02
